@@ -749,6 +749,16 @@ void SolveResultRegistry::AddSolveResults(
 
 void BasicSolver::UseOptionFile(const SolverOption &, fmt::StringRef value) {
   option_file_save_ = value;
+  // An option file may name further option files. One that includes
+  // itself, directly or not, would recurse until the stack overflows.
+  static thread_local int nesting = 0;
+  struct NestingGuard {
+    NestingGuard() { ++nesting; }
+    ~NestingGuard() { --nesting; }
+  } nesting_guard;
+  if (nesting > 32)
+    MP_RAISE(fmt::format("Option file '{}': option files nested too deeply "
+                         "(recursive inclusion?)", value));
   std::ifstream ifs(value);
   if (ifs.good())
     ProcessLines_AvoidComments(ifs,
